@@ -103,9 +103,10 @@ PROPS = {
              probes=["append_on_empty", "fp_line_crosses_4096", "fd_multi_chunk", "refused_op", "done", "query_not_found", "trim_all_whitespace",
                      "mutator_on_empty_state", "dup_of_empty_str"]),
     "C19": P(["plain", "plainz"], 30, 900,
-             "plans = fault-script sweep (all scripts over {FULL,SHORT,EINTR}^<=3 on the first reads and {FULL,SHORT,EINTR,EAGAIN}^<=3 on the first writes x 4 payload sizes) "
+             "plans = fault-script sweep (all scripts over {FULL,SHORT,EINTR}^<=3 on the first reads and {FULL,SHORT,EINTR,EAGAIN}^<=3 on the first writes x 8 payload sizes from 5 to 20000 bytes incl. exact multiples of the 4096-byte chunk) "
              "followed by seeded lifecycles of 1 server + 1..3 client tasks with per-call fault scripts (socket/bind/listen/connect/accept/read/write/close outcomes), listeners on taken addresses, open retries and seeded schedules; "
              "distinct = distinct trace hash (every simulated call outcome and scheduling decision is hashed); non-trivial = plan has >= 3 operations",
-             probes=["sweep_plan", "accept_ok", "send_true", "recv_over_4096", "dup_ok", "open_failed", "accept_failed", "run_ended_blocked", "run_completed"]),
+             probes=["sweep_plan", "accept_ok", "send_true", "recv_over_4096", "dup_ok", "open_failed", "accept_failed", "run_ended_blocked", "run_completed",
+                     "recv_ended_at_eof", "recv_ended_on_error", "send_partially_delivered", "natural_eagain_on_write", "dup_without_descriptor"]),
     "T00": P(["asan"], 3, 10, "selftest: random allocator traffic; distinct = distinct trace hash among runs with >= 3 ops"),
 }
